@@ -791,7 +791,7 @@ def scen_mp4(G, name, box, lazy, mode):
         if cut is not None:
             buf = buf[:cut]
         core.ctx().env['range_limit'] = 20000
-        core.ctx().env['tick_limit'] = 3000
+        core.ctx().env['tick_limit'] = max(3000, len(data) // 4)     # while-iterations per path; reads tick the reader's bucket loop
         core.ctx().env['utf8_nondet'] = True
 
     def run():
